@@ -13,7 +13,7 @@ from .api import Ty, Contract, Dependent
 from .interp import Interp, PyRaise, Closure, BoundMethod
 from .loops import _call_pred, _param_names
 from .path import PathState, PathAbort, RetryPath, Unsupported
-from .values import SBool, SInt, Sym, SOpt, SChoice, to_z3, wrap
+from .values import SBool, SInt, Sym, SOpt, SChoice, contains_sym, to_z3, wrap
 
 MAX_PATHS = 4000
 
@@ -109,7 +109,7 @@ def apply_contract(interp, c, func, args, kwargs):
     # frame: ghost state the callee may change (entries 'ghost:<key>' of `modifies`) is havoced;
     # what is known about it afterwards is what the (exceptional) postconditions say
     short = c.qname.rpartition(':')[2]
-    for key, ty in (c.modifies or {}).items():
+    for key, ty in (c.modifies.items() if isinstance(c.modifies, dict) else ()):
         if isinstance(ty, Dependent):
             v = ty.make_for_call(interp, '%s@%s' % (key, short), env)
         else:
@@ -127,6 +127,9 @@ def apply_contract(interp, c, func, args, kwargs):
             if isinstance(obj, (SOpt, SChoice)):
                 obj = interp.resolve(obj)
             interp.setattr(obj, path[-1], v)
+
+    if c.modifies and not isinstance(c.modifies, dict):
+        _havoc_modified(interp, c, bound)
 
     def raise_(exc_cls, spec):
         exc = _make_exc(interp, exc_cls, spec, env)
@@ -172,7 +175,7 @@ def apply_contract(interp, c, func, args, kwargs):
         from .models import SIter
         ys = c.yields.make(interp, 'yielded.%s' % c.qname.rpartition(':')[2])
         ghosts = dict(ghosts, yielded=ys)
-        result = SIter(ys, 0)
+        result = SIter(ys, 0, eager=True)
     env2 = _clause_env(bound, ghosts, {'result': result, 'old': old, 'trace': st.trace, 'ghost': st.ghost})
     for name, clause in c.ensures.items():
         if isinstance(clause, tuple):
@@ -199,6 +202,60 @@ def apply_contract(interp, c, func, args, kwargs):
     if c.event is not None:
         st.emit(c.event + ':returned', dict(bound), result)
     return result
+
+
+def _havoc_modified(interp, c, bound):
+    """Call site of a contract with `modifies`: the named mutable lists / iterators get arbitrary new contents
+    (in place: aliases see the same object); what is known afterwards is what `ensures` says."""
+    from .mlist import MList
+    from .models import SIter
+    st = interp.st
+    k = st.counters.get('call!modifies', 0)
+    st.counters['call!modifies'] = k + 1
+    tag = 'call%d' % k
+    for path in c.modifies:
+        parts = path.split('.')
+        if parts[0] not in bound:
+            raise Unsupported('modifies %r of %s: no such parameter' % (path, c.qname))
+        obj = bound[parts[0]]
+        owner = None
+        ty = c.params.get(parts[0])
+        for a in parts[1:]:
+            owner = obj
+            obj = interp.getattr(obj, a)
+            ty = getattr(ty, 'fields', {}).get(a)
+        if isinstance(obj, (SOpt, SChoice)):
+            obj = interp.resolve(obj)
+        if type(obj) is list and owner is not None and not contains_sym(obj, 0) and hasattr(ty, 'shape'):
+            # a concrete list held in a field of an object (e.g. Partitioning([], [], [])): it becomes a symbolic
+            # mutable list in that field.  Sound only if the field is the single reference to the list object:
+            # checked (references: the field, the variable `obj`, the argument of getrefcount).
+            import sys
+            if sys.getrefcount(obj) > 3:
+                raise Unsupported('contract %s modifies %r: the concrete list in that field is referenced from '
+                                  'elsewhere too' % (c.qname, path))
+            from .mlist import from_concrete
+            m = from_concrete(interp, obj, path) if obj else MList(interp, st.fresh_name(path), ty.shape())
+            m.is_deque = getattr(ty, 'deque', False)
+            interp.setattr(owner, parts[-1], m)
+            obj = m
+        if isinstance(obj, MList):
+            obj.havoc(interp, tag)
+        elif isinstance(obj, SIter):
+            p0 = to_z3(obj.pos) if not isinstance(obj.pos, int) else z3.IntVal(obj.pos)
+            p1 = st.fresh_int('%s.pos@%s' % (obj.xs.uid, tag))
+            st.assume(z3.And(p1 >= p0, z3.Or(p1 <= obj.xs.length, p1 == p0)))
+            obj.pos = wrap(p1)
+        elif isinstance(obj, list):
+            raise Unsupported('contract %s modifies %r, but the caller passes a concrete list: declare the '
+                              'caller\'s local in its contract (locals=dict(name=MListOf(...)))' % (c.qname, path))
+        else:
+            # symbolic maps (and objects that hold them): the mutable state reachable from the named
+            # parameter / field is forgotten; the clauses relate it to `old`
+            from . import models
+            if not models.havoc_mutable(interp, obj, '%s.%s' % (tag, c.qname.rpartition(':')[2])):
+                raise Unsupported('modifies %r of %s: nothing to havoc (neither a symbolic mutable list, an '
+                                  'iterator nor a symbolic map)' % (path, c.qname))
 
 
 def _make_exc(interp, exc_cls, spec, env):
@@ -247,6 +304,10 @@ def verify_function(reg, c, budget_paths=MAX_PATHS):
     rep = FunctionReport(c.qname)
     t0 = time.time()
     func = c.func
+    reg.current_props = tuple(c.props)
+    mod = getattr(c, 'module', None)
+    scope = [getattr(mod, 'prop', None)] + sorted(getattr(mod, 'uses', ())) + list(c.props)
+    reg.current_scope = tuple(dict.fromkeys(x for x in scope if x))
     info = frontend.funcinfo_of(func)
     rep.source = '%s:%d' % (info.filename, info.node.lineno)
     rep.sha = info.source_sha
@@ -367,7 +428,7 @@ def _run_path(interp, reg, c, func, rep):
     reg.ghost_env = dict(ghosts)
     # ghost (monitor) variables declared in `modifies`: the function starts in an arbitrary monitor state
     from .api import Dependent as _Dependent
-    for key, ty in (c.modifies or {}).items():
+    for key, ty in (c.modifies.items() if isinstance(c.modifies, dict) else ()):
         if key.startswith('ghost:') and isinstance(ty, Ty) and not isinstance(ty, _Dependent):
             st.ghost[key[6:]] = ty.make(interp, key)
     if c.setup is not None:
@@ -385,6 +446,25 @@ def _run_path(interp, reg, c, func, rep):
         old = _call_pred(interp, c.old, env)
         env = dict(env, old=old)      # `when` conditions of exceptional outcomes may mention the pre-state
         reg.ghost_env['old'] = old        # visible to loop invariants
+    # `when` conditions of exceptional outcomes are predicates of the PRE-state: evaluated before the call
+    # (the function may mutate its arguments)
+    when_values = {}
+    for exc_cls, spec in c.raises.items():
+        if spec.get('when') is not None:
+            when_values[exc_cls] = interp.truth(_call_pred(interp, spec['when'], env))
+    # frame: symbolic maps reachable from parameters that the contract does not list in `modifies`
+    # must be unchanged on every outcome
+    from . import models as _models
+    frame_snap = []
+    mods = tuple(c.modifies or ())
+    for pname, pval in args.items():
+        if pname in mods:
+            continue
+        for path_, m_ in _models.reachable_smaps(pval):
+            full = (pname + path_).replace('?', '')
+            if any(full == m or full.startswith(m + '.') for m in mods):
+                continue
+            frame_snap.append((pname + path_, m_, m_.has, m_.val))
     # positional order of the real function
     code = func.__code__
     names = list(code.co_varnames[:code.co_argcount + code.co_kwonlyargcount])
@@ -402,6 +482,7 @@ def _run_path(interp, reg, c, func, rep):
     outcome = None
     ghost0 = dict(st.ghost)
     info = frontend.funcinfo_of(func)
+    mlists_before = _mutable_lists_of(args)
     yseq = None
     if info.is_generator:
         from .gens import YSeq
@@ -419,13 +500,23 @@ def _run_path(interp, reg, c, func, rep):
     key = 'return' if outcome[0] == 'return' else type(outcome[1]).__name__
     rep.outcomes[key] = rep.outcomes.get(key, 0) + 1
     fname = c.qname
+    # frame: a symbolic mutable list reachable from the parameters that the function changed must be declared in
+    # `modifies` (call sites keep everything else they know about such a list)
+    mlists_after = _mutable_lists_of(args)
+    for path, (m, version) in mlists_before.items():
+        now = mlists_after.get(path)
+        if (now is None or now[0] is not m or now[1] != version) and path not in c.modifies:
+            st.oblige('%s : frame[%s is not modified]' % (fname, path), False, {'kind': 'frame'})
+    for (where, m_, has0, val0) in frame_snap:
+        same = True if (m_.has is has0 and m_.val is val0) else wrap(z3.And(m_.has == has0, m_.val == val0))
+        st.oblige('%s : frame[%s unchanged]' % (fname, where), same, {'kind': 'frame'})
     if outcome[0] == 'return':
         env2 = _clause_env(args, ghosts, {'result': outcome[1], 'old': old, 'trace': st.trace, 'ghost': st.ghost})
         # a declared deterministic `when` exception must have been raised
         for exc_cls, spec in c.raises.items():
             when = spec.get('when')
             if when is not None:
-                w = interp.truth(_call_pred(interp, when, env))
+                w = when_values[exc_cls]
                 st.oblige('%s : raises[%s] when-condition implies raise' % (fname, _exc_name(exc_cls)),
                           interp.not_(w), {'kind': 'exc-post'})
         for name, clause in c.ensures.items():
@@ -443,8 +534,8 @@ def _run_path(interp, reg, c, func, rep):
                 env2 = _clause_env(args, ghosts, {'exc': exc, 'old': old, 'trace': st.trace, 'ghost': st.ghost})
                 when = spec.get('when')
                 if when is not None:
-                    _oblige_clause(interp, '%s : raises[%s] only when' % (fname, _exc_name(exc_cls)),
-                                   when, env, {'kind': 'exc-post'})
+                    st.oblige('%s : raises[%s] only when' % (fname, _exc_name(exc_cls)), when_values[exc_cls],
+                              {'kind': 'exc-post'})
                 st.oblige('%s : raises[%s] is a declared outcome' % (fname, _exc_name(exc_cls)), True,
                           {'kind': 'exc-post'})
                 ens = spec.get('ensures')
@@ -466,7 +557,7 @@ def _run_path(interp, reg, c, func, rep):
                           isinstance(exc, tuple(allowed)) if allowed else False,
                           {'kind': 'raises-only', 'exception': repr(exc)})
     # frame of the ghost (monitor) state: variables not declared in `modifies` are unchanged
-    if c.modifies is not None:
+    if isinstance(c.modifies, dict):
         for key in sorted(k for k in set(ghost0) | set(st.ghost) if isinstance(k, str)):
             if ('ghost:' + key) in c.modifies:
                 continue
@@ -489,6 +580,29 @@ def _run_path(interp, reg, c, func, rep):
 
 
 _MISSING = object()
+
+
+def _mutable_lists_of(args):
+    """{access path: (MList, version)} of the symbolic mutable lists reachable from the arguments through the
+    fields of repository objects"""
+    from .mlist import MList
+    from .interp import _is_repo_class
+    out = {}
+
+    def walk(v, path, depth):
+        if isinstance(v, MList):
+            out[path] = (v, v.version)
+            return
+        if depth <= 0 or isinstance(v, (Sym, str, int, float, type(None), list, tuple, dict)):
+            return
+        d = getattr(v, '__dict__', None)
+        if isinstance(d, dict) and _is_repo_class(type(v)):
+            for k, x in d.items():
+                walk(x, '%s.%s' % (path, k), depth - 1)
+
+    for name, v in args.items():
+        walk(v, name, 3)
+    return out
 
 
 def _shape_of_ty(ty):
